@@ -351,9 +351,28 @@ fn msg_kind(text: &str) -> &'static str {
     }
 }
 
-/// messages that quote the line text after the number ("… : <text>")
+/// messages that quote the line text after the number, in the layout "… <n> : <text>": whatever
+/// follows the cited number must start with a colon for the message to count as quoting the line
+/// (a message that only names the number, or goes on with other words, claims no text)
 fn msg_has_text(text: &str) -> bool {
-    !text.starts_with("Int 3")
+    let n = match cited_line(text) {
+        Some(n) => n.to_string(),
+        None => return false,
+    };
+    // the cited number is the first occurrence of its digits as a whole number after line/at
+    let mut from = 0;
+    while let Some(p) = text[from..].find(&n) {
+        let st = from + p;
+        let en = st + n.len();
+        let before_ok = st == 0 || !text.as_bytes()[st - 1].is_ascii_alphanumeric();
+        let after_ok = en == text.len() || !text.as_bytes()[en].is_ascii_alphanumeric();
+        if before_ok && after_ok {
+            let rest = text[en..].trim_start();
+            return rest.starts_with(':') && !rest[1..].trim().is_empty();
+        }
+        from = en;
+    }
+    false
 }
 
 // ---------------------------------------------------------------------------------------
